@@ -91,6 +91,8 @@ def run_case(case, ctx):
             args, kw = ({k: conds[k] for k in ks[:1]}, {k: conds[k] for k in ks[1:]}), {}
         else:
             args, kw = (), conds
+        if 'self' in kw:
+            args, kw = args + ({'self': kw['self']},), {k: v for k, v in kw.items() if k != 'self'}      # no Python method takes a keyword called self: that condition goes in a dict filter
         sel = [all(match(r[c], v) for c, v in conds.items()) for r in rows]
     exp_inc = [r['id'] for r, s in zip(rows, sel) if s]
     exp_exc = [r['id'] for r, s in zip(rows, sel) if not s]
@@ -205,7 +207,7 @@ def gen_case(rng):
     n = rng.choice([0, 1, 2, 3, 4, 5, 6, 8, 12, 20])
     if rng.random() < 0.02:
         n = rng.choice([150, 260])        # long tables: any size-dependent path behind the selection
-    names = rng.sample(rng.choice([['a', 'b', 'c', 'd'], ['a', 'b', 'c', 'd'], ['rate', 'rate_type', 'day_count', 'day'], ['data', 'columns', 'x', 'key']]), rng.randint(1, 3))
+    names = rng.sample(rng.choice([['a', 'b', 'c', 'd'], ['a', 'b', 'c', 'd'], ['rate', 'rate_type', 'day_count', 'day'], ['data', 'columns', 'x', 'key'], ['self', 'a', 'other', 'cls']]), rng.randint(1, 3))
     kinds = {c: rng.choice(['nifs', 'if', 'nf', 's', 'ns', 'nifs']) for c in names}
     cols = {c: [gen.cell(rng, nan=0.15 if 'f' in kinds[c] else 0, kinds=kinds[c]) for _ in range(n)] for c in names}
     cols['id'] = list(range(10, 10 + n))
